@@ -264,3 +264,17 @@ package spynode
 //@   loop 2 invariant dbase(node) && sinceloop(same(update.State, update.TxID)) && sinceloop(ncalls(SaveTxState) == old(ncalls(SaveTxState))) && sinceloop(lastarg(SaveTxState, 2) == old(lastarg(SaveTxState, 2)))
 //@   assert safe_report_is_warranted at call HandleTxUpdate : [C07] arg2.State.Safe && !arg2.State.UnSafe && !arg2.State.Cancelled && arg2.TxID == txid
 //@        && lastarg(SaveTxState, 2) == txState && arg2.State == txState.State && ncalls(GetNewSafe) >= 1
+
+// C11: the stored copy of a delivered transaction is what a lookup by txid returns - the fetcher is
+// asked only when the store says "not found", and a stored record's transaction is returned as is.
+//@ type TxFetcher
+//@   callbacks
+//@ func (*Node).GetTx
+//@   serves C11
+//@   opt nomonitor = 1
+//@   opt summary = FetchTxState
+//@   opt track = FetchTxState GetTx
+//@   requires node != nil
+//@   assert fetcher_only_when_absent at call TxFetcher.GetTx : [C11] Cause(err) == storage.ErrNotFound
+//@   ensures stored_copy_first: [C11] ncalls(GetTx) == 0 && result1 == nil ==> lastres(FetchTxState, 0, *client.Tx) != nil && result0 == lastres(FetchTxState, 0, *client.Tx).Tx
+//@   ensures one_lookup: [C11] ncalls(FetchTxState) == 1
